@@ -342,6 +342,16 @@ class ExecutionState:
                     )
                     self._replay_status = ReplayStatus.NEW
 
+    def get_execution_input_payload(self) -> str | None:
+        """Input payload of the EXECUTION operation among the operations loaded so far."""
+        with self._operations_lock:
+            for operation in self.operations.values():
+                if operation.operation_type is OperationType.EXECUTION:
+                    if operation.execution_details is None:
+                        return None
+                    return operation.execution_details.input_payload
+        return None
+
     def begin_replay_tracking(self) -> None:
         """Evaluate the replay boundary once, before any operation of this invocation runs.
 
